@@ -100,6 +100,15 @@ def check_line(case, ev, cx=None):
     preserved = lambda n: any(G.in_net(n, c) for c in cfg.get("networks") or [])
     undo = bool(case.get("undo"))
     m4, m6 = (cx["r4"].deanonymize, cx["r6"].deanonymize) if undo else (cx["r4"].anonymize, cx["r6"].anonymize)
+    if case.get("img6") is not None:
+        # an IPv6 token whose replacement is a chosen value (below 2**32, at the 32/64-bit marks, ...):
+        # the token is the pre-image of that value under the mapping of this direction
+        import ipaddress
+
+        pre, exc = guarded(cx["r6"].anonymize if undo else cx["r6"].deanonymize, case["img6"])
+        if exc is not None:
+            return core.exc_finding(exc, case, "subst/")
+        line = line + " " + str(ipaddress.IPv6Address(pre))
     want, classes = T.expected(line, m4, m6, preserved)
     if want is None:
         ev.evaluations += 1
@@ -115,7 +124,7 @@ def check_line(case, ev, cx=None):
                 nt = True
         elif k == "plain" and _plain_kind(line[i:j]) != "word":
             nt = True
-    ev.case(case["line"], nt, sorted(set(classes)) + (["undo-direction"] if undo else []))
+    ev.case(line, nt, sorted(set(classes)) + (["undo-direction"] if undo else []) + (["chosen-ipv6-image"] if case.get("img6") is not None else []))
     got, got_io, exc = run_both(line, cx, undo, bool(case.get("nonl")))
     if exc is not None:
         return core.exc_finding(exc, case, "subst/")
@@ -142,7 +151,44 @@ def check_enum(case, ev):
     return check_line({"line": case["line"], "cfg": _ENUM_CFG}, ev, _ctx("enum", _ENUM_CFG))
 
 
-REPLAY = {"longline": check_line, "lines": check_line, "contexts": check_enum, "atoms": check_enum}
+# secret-bearing tails (whole-match scrub rules and in-place rules): with -p and -a/-u in one run the
+# address tokens in front of them are substituted exactly as without -p
+PWD_TAILS = ["message-digest-key 1 md5 7 0822455D0A16", "key-string 7 0822455D0A16", "ldap-login-password Zq9xWv7", "cable shared-secret Zq9xWv7", "wpa-psk ascii 7 0822455D0A16",
+             "password Zq9xWv7", "md5 1 key Zq9xWv7", "simple-password Zq9xWv7", "encrypted-password Zq9xWv7", "secret 5 $1$abcd$0123456789012345678901", "key 7 0822455D0A16"]
+PWD_HEADS = ["area 1 virtual-link", "ip ospf", "peer", "neighbor", "via", "", "interface x"]
+
+
+def check_pwdtail(case, ev):
+    """case: {cfg, head, toks: [text], tail, undo}"""
+    cfg = case["cfg"]
+    undo = bool(case.get("undo"))
+    prefix = " ".join(([PWD_HEADS[case["head"]]] if PWD_HEADS[case["head"]] else []) + list(case["toks"]))
+    line = prefix + " " + PWD_TAILS[case["tail"]]
+    r4, exc = guarded(G.mk4, cfg)
+    if exc is not None:
+        return core.exc_finding(exc, case, "ctor/")
+    r6 = G.mk6(cfg)
+    preserved = lambda n: any(G.in_net(n, c) for c in cfg.get("networks") or [])
+    want, classes = T.expected(prefix, *((r4.deanonymize, r6.deanonymize) if undo else (r4.anonymize, r6.anonymize)), preserved)
+    if want is None:
+        ev.excluded_domain["mixed_ambiguous"] += 1
+        return None
+    fa, exc = guarded(G.file_anonymizer, cfg, undo, anon_pwd=True)
+    if exc is not None:
+        return core.exc_finding(exc, case, "ctor/")
+    got, exc = guarded(core.run_io, fa, line + "\n", bool(case.get("nonl")))
+    if exc is not None:
+        return core.exc_finding(exc, case, "subst/")
+    ev.case(line, True, ["with-password-stage", "tail%02d" % case["tail"]] + (["undo-direction"] if undo else []) + sorted(set(classes)))
+    if got.strip() == "! Sensitive line SCRUBBED by netconan":
+        ev.excluded_domain["whole-line-scrubbed-by-the-password-stage"] += 1  # the documented removal of the line
+        return None
+    if not got.startswith(want + " "):
+        return Finding("subst/address-in-front-of-a-secret-not-substituted-with-password-stage-on:%s" % ("scrub-rule" if "SCRUBBED" in got else "in-place-rule"), "cfg=%r line %r -> %r, expected it to start with %r" % (cfg, line, got, want), case)
+    return None
+
+
+REPLAY = {"pwdtail": check_pwdtail, "longline": check_line, "lines": check_line, "contexts": check_enum, "atoms": check_enum}
 
 # ---------------------------------------------------------------- enumerated spaces
 
@@ -216,7 +262,26 @@ def _line_case(draw):
         # glue something to a token: exercises the boundary rules with arbitrary characters
         i = draw(st.integers(0, len(line)))
         line = line[:i] + draw(st.text(alphabet=st.sampled_from(list(BOUNDARY) + ["é", "\t", "%", "x", "Z"]), min_size=1, max_size=2)) + line[i:]
-    return {"line": line, "cfg": cfg, "undo": draw(st.integers(0, 3)) == 0, "both": draw(st.integers(0, 3)) == 0, "nonl": draw(st.integers(0, 3)) == 0}
+    img6 = draw(st.one_of(st.sampled_from([0, 1, 0xFFFF, 0x0A010203, 0xFFFFFFFF, 0x100000000, (0xFFFF << 32) | 0x0A010203, 1 << 64, (1 << 128) - 1]), G.u32)) if draw(st.integers(0, 7)) == 0 else None
+    return {"img6": img6, "line": line, "cfg": cfg, "undo": draw(st.integers(0, 3)) == 0, "both": draw(st.integers(0, 3)) == 0, "nonl": draw(st.integers(0, 3)) == 0}
+
+
+@st.composite
+def _pwdtail_case(draw):
+    import ipaddress
+
+    cfg = draw(G.config())
+    toks = []
+    for _ in range(draw(st.integers(1, 3))):
+        if draw(st.integers(0, 2)) == 0:
+            toks.append(str(ipaddress.IPv6Address(draw(G.v6_int))))
+        else:
+            toks.append(G.v4_canon(draw(G.addr_near(G.effective_prefixes(cfg) or ["10.0.0.0/8"])) if draw(st.booleans()) else draw(G.u32)))
+    return {"cfg": cfg, "head": draw(st.integers(0, len(PWD_HEADS) - 1)), "toks": toks, "tail": draw(st.integers(0, len(PWD_TAILS) - 1)), "undo": draw(st.integers(0, 3)) == 0, "nonl": draw(st.integers(0, 3)) == 0}
+
+
+def t_pwdtail(shard, nshards, seed, ev, known, n=300):
+    return core.hyp_drive(_pwdtail_case(), check_pwdtail, n, seed, ev, known, check_name="pwdtail")
 
 
 def t_lines(shard, nshards, seed, ev, known, n=500):
@@ -253,4 +318,5 @@ def plan(tier):
         Task("contexts", t_contexts, shards=6 if q else 16, maxlen=1 if q else 2),
         Task("atoms", t_atoms, shards=4 if q else 16, maxatoms=4 if q else 6),
         Task("longline", t_longline, shards=2 if q else 8, ntok=7000 if q else 20000),
+        Task("pwdtail", t_pwdtail, shards=2 if q else 8, n=400 if q else 8000),
     ]
